@@ -19,6 +19,10 @@ def TokWf : Token → Prop
   | .startTag _ _ _ _ _ src base => base ≤ src.start
   | _ => True
 
+/-- every text chunk fails with a panic-class error in this state -/
+def TextDead {γ : Type} (ctl : Controller γ) (g : γ) : Prop :=
+  ∀ b tt l s, ∃ m, (ctl.token g (.text b tt l s)).2.err = some (.panic m)
+
 /-- **The class of controllers, with content removal.** As `TextBlind`, but `should_emit_content()` may
 change: `handle_start_tag`, the aux-info continuation and non-tag tokens keep it; `handle_end_tag` can only
 turn it on; tag tokens may change it arbitrarily; `E` respects it. -/
@@ -41,8 +45,14 @@ structure TextBlindR {γ : Type} (ctl : Controller γ) (E : γ → γ → Prop) 
   tok : ∀ g g' t, E g g' → tokIsText t = false →
     (ctl.token g t).2.chunks = (ctl.token g' t).2.chunks ∧ (ctl.token g t).2.err = (ctl.token g' t).2.err ∧
     (ctl.token g t).2.nextEncoding = (ctl.token g' t).2.nextEncoding ∧ E (ctl.token g t).1 (ctl.token g' t).1
-  text_ok : ∀ g b tt l s, E g g → (ctl.token g (.text b tt l s)).2.err = none ∧
-    (ctl.token g (.text b tt l s)).2.nextEncoding = none ∧ (ctl.token g (.text b tt l s)).2.chunks.flatten = b
+  /-- on the domain a text chunk does not fail, does not switch the encoding and is serialised to its own
+  bytes — or the controller is in a state in which every text chunk fails with a panic-class error (a fault
+  recorded by a callback that cannot fail, reported by the next one that can) -/
+  text_ok : ∀ g b tt l s, E g g → ((ctl.token g (.text b tt l s)).2.err = none ∧
+    (ctl.token g (.text b tt l s)).2.nextEncoding = none ∧ (ctl.token g (.text b tt l s)).2.chunks.flatten = b) ∨
+    TextDead ctl g
+  dead_E : ∀ g g', E g g' → TextDead ctl g' → TextDead ctl g
+  dead_tok : ∀ g b tt l s, E g g → TextDead ctl g → TextDead ctl (ctl.token g (.text b tt l s)).1
   text_cong : ∀ g g' b tt l s, E g g' → E (ctl.token g (.text b tt l s)).1 (ctl.token g' (.text b tt l s)).1
   text_split : ∀ g b1 b2 tt l s, E g g →
     E (ctl.token (ctl.token g (.text b1 tt false ⟨s, s + b1.length⟩)).1 (.text b2 tt l ⟨s + b1.length, s + b1.length + b2.length⟩)).1
@@ -66,7 +76,15 @@ theorem TextBlind.toR {γ : Type} {ctl : Controller γ} {E : γ → γ → Prop}
   emit_tok := fun g t _ => by rw [h.emit, h.emit]
   flags := h.flags
   tok := h.tok
-  text_ok := h.text_ok
+  text_ok := fun g b tt l s hg => Or.inl (h.text_ok g b tt l s hg)
+  dead_E := fun g g' hE hd => by
+    obtain ⟨m, hm⟩ := hd [] .data false ⟨0, 0⟩
+    rw [(h.text_ok g' [] .data false ⟨0, 0⟩ (h.dom _ _ hE).2).1] at hm
+    cases hm
+  dead_tok := fun g b tt l s hg hd => by
+    obtain ⟨m, hm⟩ := hd [] .data false ⟨0, 0⟩
+    rw [(h.text_ok g [] .data false ⟨0, 0⟩ hg).1] at hm
+    cases hm
   text_cong := h.text_cong
   text_split := h.text_split
   handleEnd := h.handleEnd
@@ -98,6 +116,8 @@ structure DK0 (E : γ → γ → Prop) (inpS inpW : Bytes) (δ : Nat) (ds dw : D
   bytes : DBytes inpS inpW δ ds dw
 
 structure DKt (ctl : Controller γ) (E : γ → γ → Prop) (inpS inpW : Bytes) (δ d : Nat) (ds dw : Disp γ) : Prop where
+  /-- the whole run's controller accepts text chunks (the split run's has accepted one) -/
+  nd : ¬ TextDead ctl dw.ctl
   ctl : E ds.ctl (ctl.token dw.ctl (.text (LolHtml.slice inpW (ds.rcs + δ - d) (ds.rcs + δ)) ds.lastTextType false
       ⟨ds.textPendingStart - d, ds.textPendingStart⟩)).1
   eq : DEq ds dw
@@ -137,18 +157,22 @@ theorem tok_sim {E : γ → γ → Prop} (hcl : TextBlindR ctl E) {ds dw : Disp 
     by rw [a11, b11, c3, heq.nenc]⟩, ⟨by rw [a5, b5]; exact hp.ltt, by rw [a8, b8]; exact hp.tp, by rw [a9, b9]; exact hp.tps⟩,
     a2, b2, (ctl.token ds.ctl t').2.chunks.flatten, a12, by rw [b12, heq.em, c1]⟩
 
+theorem not_dead_of_ok {g : γ} {b : Bytes} {tt : TextType} {l : Bool} {r : Range}
+    (h : (ctl.token g (.text b tt l r)).2.err = none) : ¬ TextDead ctl g := by
+  intro hd
+  obtain ⟨m, hm⟩ := hd b tt l r
+  rw [h] at hm; cases hm
+
 /-- `flush_pending_captured_text` in both runs -/
 theorem flushPendingText_sim {E : γ → γ → Prop} {inpS inpW : Bytes} {δ : Nat} (hcl : TextBlindR ctl E) {ds dw : Disp γ}
     (h : DK0 E inpS inpW δ ds dw) :
-    (dw.flushPendingText ctl).2 = .ok () ∧ (ds.flushPendingText ctl).2 = .ok () ∧
-    DK0 E inpS inpW δ (ds.flushPendingText ctl).1 (dw.flushPendingText ctl).1 ∧
-    (ds.flushPendingText ctl).1.rcs = ds.rcs ∧ (dw.flushPendingText ctl).1.rcs = dw.rcs ∧
-    (ds.flushPendingText ctl).1.emissionEnabled = ds.emissionEnabled ∧
-    ctl.shouldEmit (ds.flushPendingText ctl).1.ctl = ctl.shouldEmit ds.ctl := by
+    OpRel (fun a b => DK0 E inpS inpW δ a b ∧ a.rcs = ds.rcs ∧ b.rcs = dw.rcs ∧
+        a.emissionEnabled = ds.emissionEnabled ∧ ctl.shouldEmit a.ctl = ctl.shouldEmit ds.ctl)
+      (ds.flushPendingText ctl) (dw.flushPendingText ctl) := by
   unfold Disp.flushPendingText
   rw [h.pend.tp]
   cases htp : ds.textPending with
-  | false => exact ⟨rfl, rfl, h, rfl, rfl, rfl, rfl⟩
+  | false => exact OpRel.ok () ⟨h, rfl, rfl, rfl, rfl⟩
   | true =>
     simp only [if_true]
     have htok : (Token.text [] dw.lastTextType true ⟨dw.textPendingStart, dw.textPendingStart⟩)
@@ -159,15 +183,25 @@ theorem flushPendingText_sim {E : γ → γ → Prop} {inpS inpW : Bytes} {δ : 
       (.text [] ds.lastTextType true ⟨ds.textPendingStart, ds.textPendingStart⟩)
     obtain ⟨b1, b2, b3, b4, b5, b6, b7, b8, b9, b10, b11, b12, b13⟩ := tokenProduced_desc (ctl := ctl) { dw with textPending := false }
       (.text [] ds.lastTextType true ⟨ds.textPendingStart, ds.textPendingStart⟩)
-    obtain ⟨c1, c2, c3⟩ := hcl.text_ok ds.ctl [] ds.lastTextType true ⟨ds.textPendingStart, ds.textPendingStart⟩ (hcl.dom _ _ h.ctl).1
-    obtain ⟨e1, e2, e3⟩ := hcl.text_ok dw.ctl [] ds.lastTextType true ⟨ds.textPendingStart, ds.textPendingStart⟩ (hcl.dom _ _ h.ctl).2
     simp only at a1 a11 a12 a13 b1 b11 b12 b13
+    rcases hcl.text_ok ds.ctl [] ds.lastTextType true ⟨ds.textPendingStart, ds.textPendingStart⟩ (hcl.dom _ _ h.ctl).1 with
+      ⟨c1, c2, c3⟩ | hdead
+    rotate_left
+    · obtain ⟨m, hm⟩ := hdead [] ds.lastTextType true ⟨ds.textPendingStart, ds.textPendingStart⟩
+      left
+      rw [a13, hm]
+      trivial
+    rcases hcl.text_ok dw.ctl [] ds.lastTextType true ⟨ds.textPendingStart, ds.textPendingStart⟩ (hcl.dom _ _ h.ctl).2 with
+      ⟨e1, e2, e3⟩ | hdead
+    rotate_left
+    · exact absurd (hcl.dead_E _ _ h.ctl hdead) (not_dead_of_ok c1)
     rw [c1] at a13; rw [e1] at b13
     rw [c2] at a11; rw [e2] at b11
     rw [c3] at a12; rw [e3] at b12
-    refine ⟨b13, a13, ⟨by rw [a1, b1]; exact hcl.text_cong _ _ _ _ _ _ h.ctl, ⟨by rw [a3, b3]; exact h.eq.flags, by rw [a4, b4]; exact h.eq.em,
+    right
+    refine ⟨by rw [a13, b13], fun _ => ⟨⟨by rw [a1, b1]; exact hcl.text_cong _ _ _ _ _ _ h.ctl, ⟨by rw [a3, b3]; exact h.eq.flags, by rw [a4, b4]; exact h.eq.em,
       by rw [a6, b6]; exact h.eq.gffh, by rw [a7, b7]; exact h.eq.paux, by rw [a10, b10]; exact h.eq.enc,
-      by rw [a11, b11]; exact h.eq.nenc⟩, ⟨by rw [a5, b5]; exact h.pend.ltt, by rw [a8, b8], by rw [a9, b9]; exact h.pend.tps⟩, ?_⟩, a2, b2, a4, by rw [a1]; exact hcl.emit_tok _ _ rfl⟩
+      by rw [a11, b11]; exact h.eq.nenc⟩, ⟨by rw [a5, b5]; exact h.pend.ltt, by rw [a8, b8], by rw [a9, b9]; exact h.pend.tps⟩, ?_⟩, a2, b2, a4, by rw [a1]; exact hcl.emit_tok _ _ rfl⟩⟩
     refine DBytes.append (ds := { ds with textPending := false }) (dw := { dw with textPending := false })
       ⟨h.bytes.rcs_le, h.bytes.bytes⟩ [] ?_ ?_ a2 b2 a4 (Or.inl rfl)
     · rw [a12]
@@ -461,11 +495,10 @@ theorem handleTag_sim {E : γ → γ → Prop} {inpS inpW : Bytes} {δ : Nat} (F
     unfold bareResume
     simp [a, b, c]
   unfold Disp.handleTag
-  obtain ⟨f1, f2, f3, _, _, f6, f7⟩ := flushPendingText_sim hcl h
   let R1 : Disp γ → Disp γ → Prop := fun a b => DK0 E inpS inpW δ a b ∧
     (a.emissionEnabled = ds.emissionEnabled ∧ ctl.shouldEmit a.ctl = ctl.shouldEmit ds.ctl)
   have hflush : OpRel R1 (ds.flushPendingText ctl) (dw.flushPendingText ctl) :=
-    Or.inr ⟨by rw [f1, f2], fun _ => ⟨f3, f6, f7⟩⟩
+    (flushPendingText_sim hcl h).mono (fun a b hab => ⟨hab.1, hab.2.2.2.1, hab.2.2.2.2⟩)
   refine bind_rel hflush (fun ds1 dw1 _ h1 => ?_)
   obtain ⟨h1k, h1e, h1s⟩ := h1
   let R2 : Disp γ → Disp γ → Prop := fun a b => DK0 E inpS inpW δ a b ∧
@@ -549,6 +582,7 @@ theorem handleTag_sim {E : γ → γ → Prop} {inpS inpW : Bytes} {δ : Nat} (F
 
 /-- everything a text chunk does to the dispatcher -/
 theorem textTok_desc {E : γ → γ → Prop} (hcl : TextBlindR ctl E) (d : Disp γ) (hd : E d.ctl d.ctl) (b : Bytes) (tt : TextType) (l : Bool) (s : Range) :
+    (∃ m, (Disp.tokenProduced ctl d (.text b tt l s)).2 = .error (.panic m)) ∨
     (Disp.tokenProduced ctl d (.text b tt l s)).2 = .ok () ∧
     (Disp.tokenProduced ctl d (.text b tt l s)).1.ctl = (ctl.token d.ctl (.text b tt l s)).1 ∧
     DSame { d with ctl := (ctl.token d.ctl (.text b tt l s)).1 } (Disp.tokenProduced ctl d (.text b tt l s)).1 ∧
@@ -556,9 +590,12 @@ theorem textTok_desc {E : γ → γ → Prop} (hcl : TextBlindR ctl E) (d : Disp
     sinkBytes (Disp.tokenProduced ctl d (.text b tt l s)).1.sink = sinkBytes d.sink ++
       (if d.emissionEnabled = true then b else []) := by
   obtain ⟨a1, a2, a3, a4, a5, a6, a7, a8, a9, a10, a11, a12, a13⟩ := tokenProduced_desc (ctl := ctl) d (.text b tt l s)
-  obtain ⟨c1, c2, c3⟩ := hcl.text_ok d.ctl b tt l s hd
-  rw [c1] at a13; rw [c2] at a11; rw [c3] at a12
-  exact ⟨a13, a1, ⟨a1, a3, a4, a5, a6, a7, a8, a9, a10, a11⟩, a2, a12⟩
+  rcases hcl.text_ok d.ctl b tt l s hd with ⟨c1, c2, c3⟩ | hdead
+  · rw [c1] at a13; rw [c2] at a11; rw [c3] at a12
+    exact Or.inr ⟨a13, a1, ⟨a1, a3, a4, a5, a6, a7, a8, a9, a10, a11⟩, a2, a12⟩
+  · obtain ⟨m, hm⟩ := hdead b tt l s
+    rw [hm] at a13
+    exact Or.inl ⟨m, a13⟩
 
 /-- everything `produce_text` (one text lexeme under the TEXT flag) does -/
 theorem produceText_desc {E : γ → γ → Prop} (hcl : TextBlindR ctl E) (d : Disp γ) (hd : E d.ctl d.ctl) (input : Bytes) (lx : NonTagLexeme) (tt : TextType) :
@@ -585,10 +622,12 @@ theorem produceText_desc {E : γ → γ → Prop} (hcl : TextBlindR ctl E) (d : 
     simp only
     rcases emitChunkBefore_desc d input lx.raw with ⟨m, he⟩ | ⟨d1, he, hs, h1, h2, h3, h4⟩
     · left; rw [he]; simp [DRes.ofExcept, DRes.bind, EPanic]
-    · right
-      rw [he]
+    · rw [he]
       simp only [DRes.ofExcept, DRes.bind]
-      obtain ⟨t1, t2, t3, t4, t5⟩ := textTok_desc hcl { d1 with lastTextType := tt } (by show E d1.ctl d1.ctl; rw [hs.ctl]; exact hd) rawb tt false (srcOf lx.prevConsumed lx.raw)
+      rcases textTok_desc hcl { d1 with lastTextType := tt } (by show E d1.ctl d1.ctl; rw [hs.ctl]; exact hd) rawb tt false (srcOf lx.prevConsumed lx.raw) with
+        ⟨m, hm⟩ | ⟨t1, t2, t3, t4, t5⟩
+      · left; rw [hm]; trivial
+      right
       rw [t1]
       simp only
       refine ⟨rawb, rfl, h2, trivial, by rw [t2]; simp only; rw [hs.ctl], by rw [t3.flags]; exact hs.flags,
@@ -601,7 +640,8 @@ theorem produceText_desc {E : γ → γ → Prop} (hcl : TextBlindR ctl E) (d : 
 
 /-- `produce_text` cannot fail when its slices are in range -/
 theorem produceText_noPanic {E : γ → γ → Prop} (hcl : TextBlindR ctl E) (d : Disp γ) (hd : E d.ctl d.ctl) (input : Bytes) (lx : NonTagLexeme) (tt : TextType)
-    (h1 : lx.raw.start ≤ lx.raw.end) (h2 : lx.raw.end ≤ input.length) (h3 : d.rcs ≤ lx.raw.start) :
+    (h1 : lx.raw.start ≤ lx.raw.end) (h2 : lx.raw.end ≤ input.length) (h3 : d.rcs ≤ lx.raw.start)
+    (hnd : ¬ TextDead ctl d.ctl) :
     ¬ EPanic (d.produceText ctl input lx tt).2 := by
   intro hp
   unfold Disp.produceText at hp
@@ -617,10 +657,38 @@ theorem produceText_noPanic {E : γ → γ → Prop} (hcl : TextBlindR ctl E) (d
     cases he
   · rw [he] at hp
     simp only [DRes.ofExcept, DRes.bind] at hp
-    obtain ⟨t1, _⟩ := textTok_desc hcl { d1 with lastTextType := tt } (by show E d1.ctl d1.ctl; rw [hs.ctl]; exact hd)
-      (LolHtml.slice input lx.raw.start lx.raw.end) tt false (srcOf lx.prevConsumed lx.raw)
-    rw [t1] at hp
-    exact hp
+    rcases hcl.text_ok d.ctl (LolHtml.slice input lx.raw.start lx.raw.end) tt false (srcOf lx.prevConsumed lx.raw) hd with
+      ⟨c1, _, _⟩ | hdead
+    · obtain ⟨_, _, _, _, _, _, _, _, _, _, _, _, a13⟩ := tokenProduced_desc (ctl := ctl) { d1 with lastTextType := tt }
+        (.text (LolHtml.slice input lx.raw.start lx.raw.end) tt false (srcOf lx.prevConsumed lx.raw))
+      simp only at a13
+      have c1' : (ctl.token d1.ctl (.text (LolHtml.slice input lx.raw.start lx.raw.end) tt false (srcOf lx.prevConsumed lx.raw))).2.err = none := by
+        rw [hs.ctl]; exact c1
+      rw [c1'] at a13
+      rw [a13] at hp
+      exact hp
+    · exact hnd hdead
+
+/-- a successful `produce_text` means the controller accepts text chunks -/
+theorem produceText_ok_notDead {E : γ → γ → Prop} (hcl : TextBlindR ctl E) (d : Disp γ) (input : Bytes) (lx : NonTagLexeme) (tt : TextType)
+    (h : (d.produceText ctl input lx tt).2 = .ok ()) : ¬ TextDead ctl d.ctl := by
+  intro hdead
+  unfold Disp.produceText at h
+  split at h
+  · cases h
+  · rename_i rawb _
+    rcases emitChunkBefore_desc d input lx.raw with ⟨m, he⟩ | ⟨d1, he, hs, _⟩
+    · rw [he] at h; simp [DRes.ofExcept, DRes.bind] at h
+    · rw [he] at h
+      simp only [DRes.ofExcept, DRes.bind] at h
+      obtain ⟨_, _, _, _, _, _, _, _, _, _, _, _, a13⟩ := tokenProduced_desc (ctl := ctl) { d1 with lastTextType := tt }
+        (.text rawb tt false (srcOf lx.prevConsumed lx.raw))
+      simp only at a13
+      obtain ⟨m, hm⟩ := hdead rawb tt false (srcOf lx.prevConsumed lx.raw)
+      rw [← hs.ctl] at hm
+      rw [hm] at a13
+      rw [a13] at h
+      cases h
 
 /-- a text lexeme under related dispatchers without debt -/
 theorem produceText_sim {E : γ → γ → Prop} {inpS inpW : Bytes} {δ : Nat} (F : Frame inpS inpW δ) (hcl : TextBlindR ctl E)
@@ -634,7 +702,8 @@ theorem produceText_sim {E : γ → γ → Prop} {inpS inpW : Bytes} {δ : Nat} 
     have hle := h.bytes.rcs_le
     rcases produceText_desc hcl dw (hcl.dom _ _ h.ctl).2 inpW ⟨pc, shR δ raw, o'⟩ tt with hp | ⟨rawb', b0, b1, b2, b3, b4, b5, b6, b7, b8, b9, b10, b11, b12, b13, b14⟩
     · exact (produceText_noPanic hcl dw (hcl.dom _ _ h.ctl).2 inpW ⟨pc, shR δ raw, o'⟩ tt (by simp only [shR]; omega) (by simp only [shR]; omega)
-        (by simp only [shR]; omega) hp).elim
+        (by simp only [shR]; omega)
+        (fun hdw => produceText_ok_notDead hcl ds inpS ⟨pc + δ, raw, o⟩ tt a2 (hcl.dead_E _ _ h.ctl hdw)) hp).elim
     · simp only at b0 b1
       rw [F.checkedSlice a0] at b0
       simp only [Option.some.injEq] at b0
@@ -767,9 +836,8 @@ theorem handleNonTag_sim {E : γ → γ → Prop} {inpS inpW : Bytes} {δ : Nat}
       | comment t => exact key
       | doctype dt => exact key
       | eof => exact key
-  obtain ⟨f1, f2, f3, _, _, _, _⟩ := flushPendingText_sim hcl h
   have hflush : OpRel (DK0 E inpS inpW δ) (ds.flushPendingText ctl) (dw.flushPendingText ctl) :=
-    Or.inr ⟨by rw [f1, f2], fun _ => f3⟩
+    (flushPendingText_sim hcl h).mono (fun _ _ hab => hab.1)
   cases o with
   | none =>
     simp only [NonTagLexeme.isText, Option.map_none, Bool.false_eq_true, if_false]
@@ -819,9 +887,8 @@ theorem endTagHint_sim {E : γ → γ → Prop} {inpS inpW : Bytes} {δ : Nat} (
     (h : DK0 E inpS inpW δ ds dw) (n : LocalName) :
     OpRel (DK0 E inpS inpW δ) (Disp.endTagHint ctl n ds) (Disp.endTagHint ctl n dw) := by
   unfold Disp.endTagHint
-  obtain ⟨f1, f2, f3, _, _, _, _⟩ := flushPendingText_sim hcl h
   have hflush : OpRel (DK0 E inpS inpW δ) (ds.flushPendingText ctl) (dw.flushPendingText ctl) :=
-    Or.inr ⟨by rw [f1, f2], fun _ => f3⟩
+    (flushPendingText_sim hcl h).mono (fun _ _ hab => hab.1)
   refine bind_rel hflush (fun ds1 dw1 _ h1 => ?_)
   obtain ⟨e1, e2⟩ := hcl.endT ds1.ctl dw1.ctl n h1.ctl
   have s2 : Disp.shouldStopRemoving ctl { dw1 with ctl := (ctl.endTag dw1.ctl n).1 } =
@@ -867,7 +934,7 @@ theorem textRepay_sim {E : γ → γ → Prop} {inpS inpW : Bytes} {δ : Nat} (F
     simp only at r1 r2 r3
     rcases produceText_desc hcl dw hdW inpW ⟨pc, ⟨a, x⟩, o'⟩ tt with hp | ⟨rawb', b0, b1, b2, b3, b4, b5, b6, b7, b8, b9, b10, b11, b12, b13, b14⟩
     · exact (produceText_noPanic hcl dw hdW inpW ⟨pc, ⟨a, x⟩, o'⟩ tt (by simp only; omega) (by simp only; omega)
-        (by simp only; omega) hp).elim
+        (by simp only; omega) hk.nd hp).elim
     simp only at b0 b1 b3 b10 b13 b14
     obtain ⟨q1, q2, q3⟩ := checkedSlice_some b0
     simp only at q1 q2 q3
@@ -914,7 +981,7 @@ theorem textRepay_sim {E : γ → γ → Prop} {inpS inpW : Bytes} {δ : Nat} (F
     subst hxe
     rcases produceText_desc hcl dw hdW inpW ⟨pc, ⟨a, a + d⟩, o'⟩ tt with hp | ⟨rawb', b0, b1, b2, b3, b4, b5, b6, b7, b8, b9, b10, b11, b12, b13, b14⟩
     · exact (produceText_noPanic hcl dw hdW inpW ⟨pc, ⟨a, a + d⟩, o'⟩ tt (by simp only; omega) (by simp only; omega)
-        (by simp only; omega) hp).elim
+        (by simp only; omega) hk.nd hp).elim
     simp only at b0 b1 b3 b10 b13 b14
     obtain ⟨q1, q2, q3⟩ := checkedSlice_some b0
     simp only at q1 q2 q3
